@@ -84,6 +84,10 @@ def _tokens(text, decimal):
             out.append(("sep", None))
             i += 1
             continue
+        if c in "uU" and i + 1 < n and text[i + 1] in "'\"" and not decimal:
+            # the documented spelling u"\u00dc": a text literal marked as Unicode means the same as without the mark
+            i += 1
+            c = text[i]
         if c in "'\"":
             if decimal:
                 return None
